@@ -1,5 +1,5 @@
 #!/usr/bin/env python3
-"""rs2v.py <rust source file> <fn name> [<fn name> ...]: translate small pure Rust functions to Gallina.
+"""rs2v.py <rust source file>::<fn name> ...: translate small pure Rust functions to Gallina.
 
 A translator for a deliberately small subset of Rust - enough for the arithmetic / decision
 functions of amiquip whose model is thereby REGENERATED from the source on every run
@@ -13,8 +13,17 @@ field accesses on parameters (`self.frame_max`, `tune.heartbeat`: every distinct
 parameter of the translated function), struct literals (`TuneOk { a, b: e }`) and the snafu
 idiom `XSnafu { f: e, .. }.fail()`.
 
+Also: tuple patterns and tuple values of two components (`let (a, b) = if c { (x, y) } else { (u, v) };`),
+`Duration::from_millis(n)` (durations are N, in milliseconds), `+` and `-` on such values, enum values
+of the table ENUMS, zero-argument method calls on fields of `self` (`self.last.elapsed()`: an
+observation, it becomes a parameter), and EFFECTS: calls on the objects of the table EFFECT_OBJECTS
+(`timer.set_timeout(when, self.val)`), assignments to fields of `self` and the logging macros are not
+part of the value computed; the numeric arguments of effect calls are returned beside the result (field
+`<object>.<method>#<position>`), so that what the function arms a timer with is part of what is proved.
+
 Semantics given to it (the trusted part of this translator): unsigned integers are N (the
-functions translated contain no arithmetic that could wrap; `+ - *` are rejected); `let`
+functions translated contain no arithmetic that could wrap; `*` and `/` are rejected, `+` is N.add, `-` is
+truncated subtraction - Rust panics where that differs, the equivalence proof is where such a case shows); `let`
 shadows; an assignment inside an `if` without `else` is the conditional rebinding
 `let x := if c then e else x`; `if c { return e; } rest` is `if c then e else rest`; a struct
 literal is the constructor name with its (field, value) list in source order; constants are
@@ -24,16 +33,22 @@ fail, and the generated file then does not compile (the proof obligation breaks)
 import re, sys
 
 CONSTS = {"FRAME_MIN_SIZE": "c_frame_min_size"}
+ENUMS = {"HeartbeatState::Expired": 1, "HeartbeatState::StillRunning": 0}
+EFFECT_OBJECTS = {"timer"}
+# which arguments of an effect call are numbers (durations) and therefore part of what is proved
+EFFECT_NUMERIC_ARGS = {("timer", "set_timeout"): [0]}
+MACROS_IGNORED = {"trace", "debug", "warn", "info"}
 CALLS = {
     "u16::min": ("N.min", 2), "u32::min": ("N.min", 2), "u64::min": ("N.min", 2),
     "u16::max": ("N.max", 2), "u32::max": ("N.max", 2),
     "u16::from": (None, 1), "u32::from": (None, 1), "u64::from": (None, 1), "usize::from": (None, 1),
     "u16::max_value": ("65535", 0), "u32::max_value": ("4294967295", 0), "u8::max_value": ("255", 0),
+    "Duration::from_millis": (None, 1),
 }
 BINOPS = {"==": "=?", "<": "<?", "<=": "<=?", "&&": "&&", "||": "||"}
 FLIP = {">": "<", ">=": "<="}
 
-TOK = re.compile(r"\s*(?:(//[^\n]*)|(/\*.*?\*/)|([A-Za-z_][A-Za-z0-9_]*)|(\d[\d_]*)|(::|->|=>|==|!=|<=|>=|&&|\|\||[-+*/!&.,;:(){}\[\]<>=]))", re.S)
+TOK = re.compile(r"\s*(?:(//[^\n]*)|(/\*.*?\*/)|([A-Za-z_][A-Za-z0-9_]*)|(\d[\d_]*)|(\"(?:[^\"\\]|\\.)*\"|::|->|=>|==|!=|<=|>=|&&|\|\||[-+*/!&.,;:(){}\[\]<>=]))", re.S)
 
 
 class Fail(Exception):
@@ -110,6 +125,16 @@ class P:
             self.skip_type(["{"])
         return ("fn", name, params, self.block())
 
+    def skip_parens(self):
+        self.eat("(")
+        depth = 1
+        while depth:
+            t = self.eat()
+            if t == "(":
+                depth += 1
+            elif t == ")":
+                depth -= 1
+
     def skip_type(self, stops):
         depth = 0
         while True:
@@ -131,6 +156,25 @@ class P:
             t = self.peek()
             if t == "fn":
                 stmts.append(self.fn())
+            elif t in MACROS_IGNORED and self.peek(1) == "!":
+                self.eat(); self.eat(); self.skip_parens(); self.eat(";")
+            elif t in EFFECT_OBJECTS and self.peek(1) == ".":
+                e = self.expr()
+                self.eat(";")
+                stmts.append(("effect", e))
+            elif t == "self" and self.peek(1) == "." and self.peek(3) == "=":
+                # self.field = <expr>;  a state update: its effect calls are recorded, the rest ignored
+                self.eat(); self.eat(); self.eat(); self.eat("=")
+                e = self.expr()
+                self.eat(";")
+                stmts.append(("effect", e))
+            elif t == "let" and self.peek(1) == "(":
+                self.eat(); self.eat("(")
+                a = self.eat(); self.eat(","); b = self.eat(); self.eat(")")
+                self.eat("=")
+                e = self.expr()
+                self.eat(";")
+                stmts.append(("let2", a, b, e))
             elif t == "let":
                 self.eat()
                 if self.peek() == "mut":
@@ -189,18 +233,25 @@ class P:
             a = ("bin", "&&", a, self.cmp())
         return a
 
-    def cmp(self):
+    def add(self):
         a = self.postfix()
+        while self.peek() in ("+", "-"):
+            op = self.eat()
+            a = ("arith", op, a, self.postfix())
+        return a
+
+    def cmp(self):
+        a = self.add()
         t = self.peek()
         if t in ("==", "<", "<=", ">", ">=", "!="):
             self.eat()
-            b = self.postfix()
+            b = self.add()
             if t in FLIP:
                 return ("bin", FLIP[t], b, a)
             if t == "!=":
                 return ("not", ("bin", "==", a, b))
             return ("bin", t, a, b)
-        if t in ("+", "-", "*", "/"):
+        if t in ("*", "/"):
             raise Fail("arithmetic operator %s is outside the subset" % t)
         return a
 
@@ -228,9 +279,17 @@ class P:
 
     def atom(self):
         t = self.peek()
+        if t == "&":
+            self.eat()
+            return self.postfix()
         if t == "(":
             self.eat()
             e = self.expr()
+            if self.peek() == ",":
+                self.eat()
+                e2 = self.expr()
+                self.eat(")")
+                return ("tuple", e, e2)
             self.eat(")")
             return e
         if t == "if":
@@ -288,6 +347,8 @@ class Gen:
     def __init__(self):
         self.fields = []      # (base, field) in order of first use -> parameters
         self.local_fns = {}
+        self.effects = []
+        self.wrap = None
 
     def var(self, base, field):
         if (base, field) not in self.fields:
@@ -299,6 +360,8 @@ class Gen:
         if k == "int":
             return str(x[1])
         if k == "var":
+            if x[1] in ENUMS:
+                return str(ENUMS[x[1]])
             return CONSTS.get(x[1], x[1])
         if k == "field":
             if x[1][0] != "var":
@@ -306,6 +369,10 @@ class Gen:
             return self.var(x[1][1], x[2])
         if k == "not":
             return "(negb %s)" % self.e(x[1])
+        if k == "arith":
+            return "(%s %s %s)" % (self.e(x[2]), x[1], self.e(x[3]))
+        if k == "tuple":
+            return "(%s, %s)" % (self.e(x[1]), self.e(x[2]))
         if k == "bin":
             return "(%s %s %s)" % (self.e(x[2]), BINOPS[x[1]], self.e(x[3]))
         if k == "call":
@@ -324,6 +391,9 @@ class Gen:
             raise Fail("call of %s is outside the subset" % name)
         if k == "struct":
             return '(RsOk "%s" [%s])' % (x[1], "; ".join('("%s", %s)' % (f, self.e(v)) for f, v in x[2]))
+        if k == "method" and x[1][0] == "field" and x[1][1] == ("var", "self") and not x[3]:
+            # an observation of the state: self.last.elapsed()
+            return self.var("self", "%s_%s" % (x[1][2], x[2]))
         if k == "method":
             recv, name = x[1], x[2]
             if name == "fail" and recv[0] == "struct" and recv[1].endswith("Snafu"):
@@ -335,30 +405,46 @@ class Gen:
             return "(if %s then %s else %s)" % (self.e(x[1]), self.blk(x[2]), self.blk(x[3]))
         raise Fail("expression kind " + k)
 
-    def blk(self, b):
-        return self.stmts(b[1], b[2])
+    def effect(self, e):
+        """record the numeric arguments of a call on an effect object"""
+        if e[0] == "method" and e[1][0] == "var" and e[1][1] in EFFECT_OBJECTS:
+            for i in EFFECT_NUMERIC_ARGS.get((e[1][1], e[2]), []):
+                self.effects.append(("%s.%s#%d" % (e[1][1], e[2], i), self.e(e[3][i])))
+            return
+        raise Fail("effect outside the subset: %r" % (e,))
 
-    def stmts(self, stmts, tail):
+    def blk(self, b):
+        return self.stmts(b[1], b[2], top=False)
+
+    def stmts(self, stmts, tail, top=False):
         if not stmts:
             if tail is None:
                 raise Fail("block without a value")
+            if top and self.wrap:
+                fields = [("result", self.e(tail))] + self.effects
+                return '(RsOk "%s" [%s])' % (self.wrap, "; ".join('("%s", %s)' % f for f in fields))
             return self.e(tail)
         s, rest = stmts[0], stmts[1:]
         if s[0] == "fn":
             raise Fail("nested fn not hoisted")
         if s[0] == "let":
-            return "(let %s := %s in %s)" % (s[1], self.e(s[2]), self.stmts(rest, tail))
+            return "(let %s := %s in %s)" % (s[1], self.e(s[2]), self.stmts(rest, tail, top))
         if s[0] == "assign":
-            return "(let %s := %s in %s)" % (s[1], self.e(s[2]), self.stmts(rest, tail))
+            return "(let %s := %s in %s)" % (s[1], self.e(s[2]), self.stmts(rest, tail, top))
+        if s[0] == "let2":
+            return "(let '(%s, %s) := %s in %s)" % (s[1], s[2], self.e(s[3]), self.stmts(rest, tail, top))
+        if s[0] == "effect":
+            self.effect(s[1])
+            return self.stmts(rest, tail, top)
         if s[0] == "return":
             return self.e(s[1])
         if s[0] == "ifstmt":
             c, body = s[1], s[2]
             inner, btail = body[1], body[2]
             if btail is None and len(inner) == 1 and inner[0][0] == "return":
-                return "(if %s then %s else %s)" % (self.e(c), self.e(inner[0][1]), self.stmts(rest, tail))
+                return "(if %s then %s else %s)" % (self.e(c), self.e(inner[0][1]), self.stmts(rest, tail, top))
             if btail is None and inner and all(i[0] == "assign" for i in inner):
-                out = self.stmts(rest, tail)
+                out = self.stmts(rest, tail, top)
                 for i in reversed(inner):
                     out = "(let %s := (if %s then %s else %s) in %s)" % (i[1], self.e(c), self.e(i[2]), i[1], out)
                 return out
@@ -382,9 +468,17 @@ def translate(src, name, prefix="gen_"):
         cname = "%s%s_%s" % (prefix, fname, f[1])
         defs.append("Definition %s %s: N :=\n  %s." % (cname, "".join("(%s : N) " % p for p in f[2]), text))
         g.local_fns[f[1]] = cname
-    text = g.stmts(rest, body[2])
+    # a function that does not build a Result / struct itself returns a plain value: it is wrapped,
+    # together with what it handed to its effect objects, into a result record at its tail (where
+    # the variables the effect arguments mention are in scope)
+    probe = Gen()
+    probe.local_fns = dict(g.local_fns)
+    ptext = probe.stmts(rest, body[2])
+    if "RsOk" not in ptext and "RsErr" not in ptext:
+        g.wrap = fname
+    text = g.stmts(rest, body[2], top=True)
     fields = sorted(g.fields)
-    ps = ["%s_%s" % bf for bf in fields] + [p for p in params if p not in ("self",) and not any(b == p for b, _ in fields)]
+    ps = ["%s_%s" % bf for bf in fields] + [p for p in params if p not in ("self",) and p not in EFFECT_OBJECTS and not any(b == p for b, _ in fields)]
     defs.append("(* parameters (the fields the function reads, sorted): %s *)\nDefinition %s%s %s: rs_result :=\n  %s." % (
         ", ".join("%s.%s" % bf for bf in fields), prefix, fname, "".join("(%s : N) " % p for p in ps), text))
     return "\n\n".join(defs)
@@ -403,14 +497,14 @@ Inductive rs_result :=
 '''
 
 if __name__ == "__main__":
-    path, names = sys.argv[1], sys.argv[2:]
-    src = open(path).read()
-    out = [HEADER % path]
+    # arguments: <file>::<fn> ...
+    specs = [a.rsplit("::", 1) for a in sys.argv[1:]]
+    out = [HEADER % ", ".join(sorted(set(p for p, _ in specs)))]
     ok = True
-    for n in names:
+    for path, n in specs:
         try:
-            out.append(translate(src, n))
-        except Fail as ex:
+            out.append("(* ---- %s :: %s ---- *)\n" % (path, n) + translate(open(path).read(), n))
+        except (Fail, OSError) as ex:
             ok = False
             out.append("(* TRANSLATION FAILED for %s: %s *)\nDefinition gen_%s : rs_result := translation_failed." % (n, ex, n))
     print("\n\n".join(out))
